@@ -97,21 +97,8 @@ Qed.
 
 (** * the matcher on compiled user steps *)
 Definition is_user (m : mstep) : bool :=
-  match m with MAttr _ _ | MAny _ _ | MImm _ _ => true | _ => false end.
+  match m with MAttr _ _ | MAny _ _ _ | MImm _ _ => true | _ => false end.
 
-Lemma compile_steps_cons : forall sp st r,
-  compile_steps ((sp, st) :: r) =
-  (if s_attr st then MAttr (s_test st) (s_preds st)
-   else if next_is_desc r then MAny (s_test st) (s_preds st)
-   else MImm (s_test st) (s_preds st)) :: compile_steps r.
-Proof. reflexivity. Qed.
-
-Lemma compile_head_user : forall sp st r, exists m rest,
-  compile_steps ((sp, st) :: r) = m :: rest /\ is_user m = true.
-Proof.
-  intros sp st r. rewrite compile_steps_cons.
-  destruct (s_attr st); [|destruct (next_is_desc r)]; eexists; eexists; split; reflexivity.
-Qed.
 
 Lemma user_not_anyfn : forall m, is_user m = true -> is_anyfn m = false.
 Proof. intros m. destruct m; simpl; intro H; try discriminate; reflexivity. Qed.
@@ -151,167 +138,11 @@ Proof.
 Qed.
 
 (* what a user step at the front can return *)
-Lemma user_result : forall D m rest n, is_user m = true ->
-  (exists g, step_pattern D (m :: rest) n = (Some g, true)) \/ step_pattern D (m :: rest) n = (None, false).
-Proof.
-  intros D m rest n U.
-  assert (B : forall c, (exists g, (let (c', s) := body D m rest c in ((if s then c' else None), s)) = (Some g, true))
-                        \/ (let (c', s) := body D m rest c in ((if s then c' else None), s)) = (None, false)).
-  { intros c. destruct m; try discriminate; cbn [body].
-    - destruct (step_ok D true t ps c); [left; eexists; reflexivity|right; reflexivity].
-    - destruct (is_attr (kind_of D c)); [right; reflexivity|].
-      destruct (find _ (aos D c)); [left; eexists; reflexivity|right; reflexivity].
-    - destruct (step_ok D false t ps c); [left; eexists; reflexivity|right; reflexivity]. }
-  destruct rest as [|m2 rest'].
-  - rewrite step_pattern_one. apply B.
-  - rewrite step_pattern_cons2.
-    destruct (step_pattern D (m2 :: rest') n) as [[c|] [|]]; try (right; reflexivity).
-    destruct (if is_anyfn m2 then Some c else parent D c); [apply B|right; reflexivity].
-Qed.
 
 Definition wf_steps (steps : list (sep * sstep)) : Prop :=
   Forall (fun s => Forall wf_pred (s_preds (snd s))) steps.
 
-Lemma all_child_desc_then_child : forall l, all_child l = true -> desc_then_child l = true.
-Proof.
-  induction l as [|[sp st] r IH]; intro H; [reflexivity|]. destruct sp; [exact H|discriminate].
-Qed.
 
-(* '/'-only chains: the matcher is exact and deterministic *)
-Lemma chain_child : forall D steps, wf_doc D = true -> wf_steps steps -> steps <> [] ->
-  all_child (tl steps) = true -> forall n g,
-  step_pattern D (compile_steps steps) n = (Some g, true) <-> reach D steps n g.
-Proof.
-  intros D steps W. induction steps as [|[sp st] r IH]; intros Wf Hne Hall n g; [congruence|].
-  inversion_clear Wf as [|? ? Wst Wr]. cbn [snd] in Wst. cbn [tl] in Hall.
-  destruct r as [|[sp2 st2] r'].
-  - rewrite compile_steps_cons. cbn [next_is_desc compile_steps reach].
-    rewrite step_pattern_one.
-    assert (E : (let (c', s) := body D (if s_attr st then MAttr (s_test st) (s_preds st)
-                                        else MImm (s_test st) (s_preds st)) [] n in
-                 ((if s then c' else None), s))
-                = ((if step_ok D (s_attr st) (s_test st) (s_preds st) n then Some n else None),
-                   step_ok D (s_attr st) (s_test st) (s_preds st) n)).
-    { destruct (s_attr st); reflexivity. }
-    rewrite E. clear E. rewrite <- (step_ok_spec D st g W Wst).
-    destruct (step_ok D (s_attr st) (s_test st) (s_preds st) n) eqn:S.
-    + split.
-      * intro H. inversion H. subst. split; [exact S|reflexivity].
-      * intros [_ H]. subst. reflexivity.
-    + split; [discriminate|]. intros [H1 H2]. subst. rewrite S in H1. discriminate.
-  - destruct sp2; [|discriminate]. cbn [all_child] in Hall.
-    specialize (IH Wr ltac:(discriminate) Hall).
-    rewrite compile_steps_cons.
-    destruct (compile_head_user SChild st2 r') as [m2 [rest [Em2 Um2]]].
-    rewrite Em2 in *. cbn [next_is_desc].
-    rewrite step_pattern_cons2. rewrite (user_not_anyfn m2 Um2).
-    assert (E : forall c', (let (c'', s) := body D (if s_attr st then MAttr (s_test st) (s_preds st)
-                                        else MImm (s_test st) (s_preds st)) (m2 :: rest) c' in
-                 ((if s then c'' else None), s))
-                = ((if step_ok D (s_attr st) (s_test st) (s_preds st) c' then Some c' else None),
-                   step_ok D (s_attr st) (s_test st) (s_preds st) c')).
-    { intro c'. destruct (s_attr st); reflexivity. }
-    cbn [reach]. split.
-    + intros H.
-      destruct (step_pattern D (m2 :: rest) n) as [[c2|] [|]] eqn:R; try discriminate.
-      destruct (parent D c2) as [c'|] eqn:Hp; [|discriminate].
-      rewrite E in H. destruct (step_ok D (s_attr st) (s_test st) (s_preds st) c') eqn:S; [|discriminate].
-      inversion H. subst c'. split; [apply (step_ok_spec D st g W Wst); exact S|].
-      exists c2. split; [apply IH; exact R|]. exists g. split; [exact Hp|reflexivity].
-    + intros [Hok [c2 [R2 [p2 [Hp2 Ep]]]]]. subst p2.
-      apply IH in R2. rewrite R2, Hp2, E.
-      apply (step_ok_spec D st g W Wst) in Hok. rewrite Hok. reflexivity.
-Qed.
-
-(* '//' prefixes: whatever chain the specification finds, the nearest-ancestor matcher succeeds with a
-   context at or below the chain's *)
-Lemma chain_any : forall D steps, wf_doc D = true -> wf_steps steps -> steps <> [] ->
-  desc_then_child (tl steps) = true -> forall n,
-  (forall g, step_pattern D (compile_steps steps) n = (Some g, true) -> reach D steps n g) /\
-  (forall c, reach D steps n c ->
-             exists g, step_pattern D (compile_steps steps) n = (Some g, true) /\ In c (aos D g)).
-Proof.
-  intros D steps W. induction steps as [|[sp st] r IH]; intros Wf Hne Hg n; [congruence|].
-  cbn [tl] in Hg.
-  destruct r as [|[sp2 st2] r'].
-  - pose proof (chain_child D [(sp, st)] W Wf Hne eq_refl n) as C. split.
-    + intros g H. apply C. exact H.
-    + intros c H. exists c. split; [apply C; exact H|apply aos_self].
-  - destruct sp2.
-    + (* the rest is '/'-only: exact *)
-      cbn [desc_then_child] in Hg.
-      pose proof (chain_child D ((sp, st) :: (SChild, st2) :: r') W Wf Hne Hg n) as C. split.
-      * intros g H. apply C. exact H.
-      * intros c H. exists c. split; [apply C; exact H|apply aos_self].
-    + cbn [desc_then_child] in Hg.
-      inversion_clear Wf as [|? ? Wst Wr]. cbn [snd] in Wst.
-      assert (Hg' : desc_then_child (tl ((SDesc, st2) :: r')) = true) by exact Hg.
-      destruct (IH Wr ltac:(discriminate) Hg' n) as [IHa IHb]. clear IH.
-      rewrite compile_steps_cons.
-      destruct (compile_head_user SDesc st2 r') as [m2 [rest [Em2 Um2]]].
-      rewrite Em2 in *. cbn [next_is_desc].
-      rewrite step_pattern_cons2. rewrite (user_not_anyfn m2 Um2).
-      destruct (s_attr st) eqn:At.
-      * (* an attribute step in front of '//' selects nothing and matches nothing *)
-        split.
-        -- intros g H.
-           destruct (step_pattern D (m2 :: rest) n) as [[c2|] [|]] eqn:R; try discriminate.
-           destruct (parent D c2) as [c'|] eqn:Hp; [|discriminate].
-           cbn [body] in H.
-           destruct (step_ok D true (s_test st) (s_preds st) c') eqn:S; [|discriminate].
-           exfalso. unfold step_ok in S. apply andb_prop in S. destruct S as [S _].
-           apply attr_test_attr in S.
-           destruct (wf_parent_container D c2 c' W Hp) as [Hc _].
-           apply container_not_attr in Hc. congruence.
-        -- intros c H. exfalso. cbn [reach] in H.
-           destruct H as [[p [Hp Hin]] [c2 [_ [p2 [Hp2 Hanc]]]]].
-           unfold spec_step in Hin. apply apply_preds_sub in Hin. rewrite At in Hin.
-           apply filter_In in Hin. destruct Hin as [Hin _]. apply in_attributes in Hin.
-           destruct Hin as [_ Hattr].
-           destruct (aos_container D c p2 W Hanc) as [E|E].
-           ++ subst. destruct (wf_parent_container D c2 p2 W Hp2) as [Hc _].
-              apply container_not_attr in Hc. congruence.
-           ++ apply container_not_attr in E. congruence.
-      * set (F := fun a => negb (is_root (kind_of D a)) && child_test (s_test st) (kind_of D a)
-                          && do_preds (found_index D false (s_test st) (s_preds st) a) (s_preds st) a true).
-        assert (FS : forall a, is_attr (kind_of D a) = false ->
-                     F a = step_ok D (s_attr st) (s_test st) (s_preds st) a).
-        { intros a Ha. unfold F, step_ok. rewrite At, Ha. reflexivity. }
-        split.
-        -- intros g H.
-           destruct (step_pattern D (m2 :: rest) n) as [[c2|] [|]] eqn:R; try discriminate.
-           destruct (parent D c2) as [c'|] eqn:Hp; [|discriminate].
-           cbn [body] in H.
-           destruct (is_attr (kind_of D c')) eqn:Ac; [discriminate|].
-           fold F in H. destruct (find F (aos D c')) as [a|] eqn:Fd; [|discriminate].
-           inversion H. subst a. apply find_some in Fd. destruct Fd as [Hin Fg].
-           assert (Hna : is_attr (kind_of D g) = false).
-           { destruct (aos_container D g c' W Hin) as [E|E]; [subst; exact Ac|].
-             apply container_not_attr. exact E. }
-           rewrite (FS g Hna) in Fg. cbn [reach]. split; [apply (step_ok_spec D st g W Wst); exact Fg|].
-           exists c2. split; [apply IHa; reflexivity|]. exists c'. split; [exact Hp|exact Hin].
-        -- intros c H. cbn [reach] in H.
-           destruct H as [Hok [c2 [R2 [p2 [Hp2 Hanc]]]]].
-           destruct (IHb c2 R2) as [g2 [R Hc2]]. rewrite R.
-           pose proof (IHa g2 R) as Rg2. destruct (reach_first_ok D _ n g2 Rg2) as [c' Hp].
-           rewrite Hp. cbn [body].
-           destruct (wf_parent_container D g2 c' W Hp) as [Hcc _].
-           rewrite (container_not_attr _ Hcc). fold F.
-           assert (Hin : In c (aos D c')).
-           { apply aos_cases in Hc2. destruct Hc2 as [E|[q [Hq Hc2]]].
-             - subst g2. rewrite Hp in Hp2. inversion Hp2. subst. exact Hanc.
-             - rewrite Hp in Hq. inversion Hq. subst q.
-               eapply aos_trans; [exact Hanc|]. eapply aos_parent_in; eauto. }
-           assert (Hna : is_attr (kind_of D c) = false).
-           { destruct (aos_container D c c' W Hin) as [E|E].
-             - subst. apply container_not_attr. exact Hcc.
-             - apply container_not_attr. exact E. }
-           apply (step_ok_spec D st c W Wst) in Hok. rewrite <- (FS c Hna) in Hok.
-           destruct (find_aos D F c' c Hin Hok) as [g [Fd Hg2]].
-           rewrite Fd. exists g. split; [reflexivity|exact Hg2].
-Qed.
-
-(* an attribute step in front of '//' selects nothing *)
 Lemma attr_before_desc_unreachable : forall D sp st st2 r' n c, wf_doc D = true ->
   s_attr st = true -> reach D ((sp, st) :: (SDesc, st2) :: r') n c -> False.
 Proof.
@@ -327,43 +158,3 @@ Proof.
 Qed.
 
 (* soundness needs no guard: whatever the matcher finds is a chain of the expression semantics *)
-Lemma chain_sound : forall D steps, wf_doc D = true -> wf_steps steps -> steps <> [] -> forall n g,
-  step_pattern D (compile_steps steps) n = (Some g, true) -> reach D steps n g.
-Proof.
-  intros D steps W. induction steps as [|[sp st] r IH]; intros Wf Hne n g H; [congruence|].
-  destruct r as [|[sp2 st2] r'].
-  - apply (chain_child D [(sp, st)] W Wf Hne eq_refl n g). exact H.
-  - inversion_clear Wf as [|? ? Wst Wr]. cbn [snd] in Wst.
-    specialize (IH Wr ltac:(discriminate) n).
-    rewrite compile_steps_cons in H.
-    destruct (compile_head_user sp2 st2 r') as [m2 [rest [Em2 Um2]]].
-    rewrite Em2 in *.
-    rewrite step_pattern_cons2, (user_not_anyfn m2 Um2) in H.
-    destruct (step_pattern D (m2 :: rest) n) as [[c2|] [|]] eqn:R; try discriminate.
-    destruct (parent D c2) as [c'|] eqn:Hp; [|discriminate].
-    pose proof (IH c2 eq_refl) as R2.
-    assert (Plain : forall at', at' = s_attr st ->
-              step_ok D at' (s_test st) (s_preds st) c' = true -> g = c' ->
-              reach D ((sp, st) :: (sp2, st2) :: r') n g).
-    { intros at' Eat S Eg. subst at' g. cbn [reach]. split; [apply (step_ok_spec D st c' W Wst); exact S|].
-      exists c2. split; [exact R2|]. exists c'. split; [exact Hp|].
-      destruct sp2; [reflexivity|apply aos_self]. }
-    destruct (s_attr st) eqn:At.
-    + cbn [body] in H. destruct (step_ok D true (s_test st) (s_preds st) c') eqn:S; [|discriminate].
-      inversion H. apply (Plain true); auto.
-    + destruct sp2; cbn [next_is_desc] in H.
-      * cbn [body] in H. destruct (step_ok D false (s_test st) (s_preds st) c') eqn:S; [|discriminate].
-        inversion H. apply (Plain false); auto.
-      * cbn [body] in H.
-        destruct (is_attr (kind_of D c')) eqn:Ac; [discriminate|].
-        match type of H with context [find ?F _] => set (F0 := F) in * end.
-        destruct (find F0 (aos D c')) as [a|] eqn:Fd; [|discriminate].
-        inversion H. subst a. apply find_some in Fd. destruct Fd as [Hin Fg].
-        assert (Hna : is_attr (kind_of D g) = false).
-        { destruct (aos_container D g c' W Hin) as [E|E]; [subst; exact Ac|].
-          apply container_not_attr. exact E. }
-        assert (S : step_ok D (s_attr st) (s_test st) (s_preds st) g = true).
-        { unfold step_ok. rewrite At, Hna. exact Fg. }
-        cbn [reach]. split; [apply (step_ok_spec D st g W Wst); exact S|].
-        exists c2. split; [exact R2|]. exists c'. split; [exact Hp|exact Hin].
-Qed.
